@@ -108,13 +108,30 @@ example : exDerived.contains "zz".toList = false
 
 /-! ## 8. unknown keys of a nested object decoded by `bind_best_dataclass` -/
 
-/-- **best_unknown_key_fails**: a field whose declared class has subclasses (or a union /
-compound / wildcard field) decodes a nested object through `bind_best_dataclass`; there a
-key that no candidate class declares excludes every candidate (`local_names_match`) and the
-decoder raises `ParserError` — `fail_on_unknown_properties` is never consulted. -/
-theorem best_unknown_key_fails {keys : List Str} {k : Str} (hk : keys.contains k = true)
+theorem bestStep_congr {keys keys' : List Str} {c : Cand}
+    (h : localNamesMatch keys c.localNames = localNamesMatch keys' c.localNames) (acc : Option (ClassId × Nat)) :
+    bestStep keys acc c = bestStep keys' acc c := by
+  simp [bestStep, h]
+
+theorem foldl_bestStep_congr {keys keys' : List Str} :
+    ∀ (cands : List Cand), (∀ c ∈ cands, localNamesMatch keys c.localNames = localNamesMatch keys' c.localNames) →
+      ∀ acc, cands.foldl (bestStep keys) acc = cands.foldl (bestStep keys') acc := by
+  intro cands
+  induction cands with
+  | nil => intro _ acc; rfl
+  | cons c cs ih =>
+    intro h acc
+    rw [List.foldl_cons, List.foldl_cons, bestStep_congr (h c (List.mem_cons_self ..))]
+    exact ih (fun c' h' => h c' (List.mem_cons_of_mem _ h')) _
+
+/-- **best_unknown_key_strict**: a field whose declared class has subclasses (or a union /
+compound / wildcard field) decodes a nested object through `bind_best_dataclass`; with
+`fail_on_unknown_properties` on, a key that no candidate class declares excludes every
+candidate (`local_names_match`) and the decoder raises `ParserError`. -/
+theorem best_unknown_key_strict {cfg : ParserConfig} (hcfg : cfg.failOnUnknownProperties = true)
+    {keys : List Str} {k : Str} (hk : keys.contains k = true)
     {cands : List Cand} (hc : cands.all (fun c => !c.localNames.contains k) = true) :
-    bindBest keys cands = .error (.parser "Failed to bind object") := by
+    bindBest cfg keys cands = .error (.parser "Failed to bind object") := by
   have hstep : ∀ c ∈ cands, bestStep keys none c = none := by
     intro c hcm
     have hcn : c.localNames.contains k = false := by
@@ -130,7 +147,7 @@ theorem best_unknown_key_fails {keys : List Str} {k : Str} (hk : keys.contains k
     | cons c cs ih =>
       rw [List.foldl_cons, hstep c (List.mem_cons_self ..)]
       exact ih (fun c' h' => hstep c' (List.mem_cons_of_mem _ h'))
-  simp [bindBest, this]
+  simp [bindBest, bestKeys, hcfg, this]
 
 /-- candidates `Base(x)`, `Sub(x, y)`; both attempts succeed on `{"x": …}` -/
 def exCands : List Cand := [⟨"Base".toList, [['x']], some 2⟩, ⟨"Sub".toList, [['x'], ['y']], some 2⟩]
@@ -138,44 +155,43 @@ def exCands : List Cand := [⟨"Base".toList, [['x']], some 2⟩, ⟨"Sub".toLis
 example : [['x'], ['z']].contains ['z'] = true ∧ exCands.all (fun c => !c.localNames.contains ['z']) = true := by
   decide
 
-/-- Full-strength form: an unknown key added to the nested object is ignored (the flag-off
-behaviour of `bind_dataclass`), i.e. the selected class does not change. -/
-def BestUnknownInvariant : Prop :=
-  ∀ (keys : List Str) (k : Str) (cands : List Cand),
-    cands.all (fun c => !c.localNames.contains k) = true →
-    bindBest (keys ++ [k]) cands = bindBest keys cands
-
-/-- **best_unknown_invariant_false**: `{"x": "1"}` binds to `Base`, `{"x": "1", "z": 2}` raises
-(known finding `C10-dict-best-rejects-unknown`). -/
-theorem best_unknown_invariant_false : ¬ BestUnknownInvariant := by
-  intro h
-  have h := h [['x']] ['z'] exCands (by decide)
-  have h1 : bindBest ([['x']] ++ [['z']]) exCands = .error (.parser "Failed to bind object") := by rfl
-  have h2 : bindBest [['x']] exCands = .ok "Base".toList := by rfl
-  rw [h1, h2] at h
-  cases h
-
-/-- **best_known_keys_partial**: keys that every matching candidate declares do not disturb
-the selection: with only known keys the matching candidates are those for the smaller key set
-that also declare the new key. -/
-theorem best_known_keys_partial (keys : List Str) (k : Str) (cands : List Cand)
-    (hall : cands.all (fun c => c.localNames.contains k) = true) :
-    bindBest (keys ++ [k]) cands = bindBest keys cands := by
-  have hstep : ∀ c ∈ cands, ∀ acc, bestStep (keys ++ [k]) acc c = bestStep keys acc c := by
-    intro c hcm acc
-    have hcn : c.localNames.contains k = true := List.all_eq_true.mp hall c hcm
-    have : localNamesMatch (keys ++ [k]) c.localNames = localNamesMatch keys c.localNames := by
-      simp only [localNamesMatch, List.all_append, List.all_cons, List.all_nil, hcn, Bool.and_true]
-    simp [bestStep, this]
-  have : ∀ acc, cands.foldl (bestStep (keys ++ [k])) acc = cands.foldl (bestStep keys) acc := by
-    clear hall
-    induction cands with
-    | nil => intro acc; rfl
-    | cons c cs ih =>
-      intro acc
-      rw [List.foldl_cons, List.foldl_cons, hstep c (List.mem_cons_self ..)]
-      exact ih (fun c' h' => hstep c' (List.mem_cons_of_mem _ h')) _
+/-- **best_unknown_key_ignored** (formerly the false `BestUnknownInvariant`, known finding
+`C10-dict-best-rejects-unknown`, repaired): with `fail_on_unknown_properties` off a key that no
+candidate class declares is ignored — the selected class is the one selected without it, at
+whatever position the key stands. -/
+theorem best_unknown_key_ignored {cfg : ParserConfig} (hcfg : cfg.failOnUnknownProperties = false)
+    (pre post : List Str) (k : Str) (cands : List Cand)
+    (hc : cands.all (fun c => !c.localNames.contains k) = true) :
+    bindBest cfg (pre ++ k :: post) cands = bindBest cfg (pre ++ post) cands := by
+  have hk : cands.any (fun c => c.localNames.contains k) = false := by
+    rw [List.any_eq_false]
+    intro c hcm
+    have := List.all_eq_true.mp hc c hcm
+    simpa using this
+  have : bestKeys cfg (pre ++ k :: post) cands = bestKeys cfg (pre ++ post) cands := by
+    simp only [bestKeys, hcfg, Bool.false_eq_true, if_false, List.filter_append, List.filter_cons, hk]
   simp [bindBest, this]
+
+example : bindBest { failOnUnknownProperties := false } [['x'], ['z']] exCands = .ok "Base".toList
+    ∧ bindBest { failOnUnknownProperties := true } [['x'], ['z']] exCands = .error (.parser "Failed to bind object") :=
+  ⟨by rfl, by rfl⟩
+
+/-- **best_known_keys**: keys that every candidate declares do not disturb the selection,
+under either setting of the flag. -/
+theorem best_known_keys (cfg : ParserConfig) (keys : List Str) (k : Str) (cands : List Cand)
+    (hall : cands.all (fun c => c.localNames.contains k) = true) :
+    bindBest cfg (keys ++ [k]) cands = bindBest cfg keys cands := by
+  have hstep : ∀ c ∈ cands, localNamesMatch (bestKeys cfg (keys ++ [k]) cands) c.localNames
+      = localNamesMatch (bestKeys cfg keys cands) c.localNames := by
+    intro c hcm
+    have hcn : c.localNames.contains k = true := List.all_eq_true.mp hall c hcm
+    unfold bestKeys
+    split
+    · simp only [localNamesMatch, List.all_append, List.all_cons, List.all_nil, hcn, Bool.and_true]
+    · simp only [localNamesMatch, List.filter_append, List.all_append, List.filter_cons, List.filter_nil]
+      have hk : k ∈ c.localNames := by simpa using hcn
+      split <;> simp [hk]
+  simp only [bindBest, foldl_bestStep_congr cands hstep]
 
 example : exCands.all (fun c => c.localNames.contains ['x']) = true := by decide
 
@@ -209,6 +225,33 @@ theorem convert_after_best_lenient {cfg : ParserConfig} (hc : cfg.failOnConverte
     (workAll cfg (pre ++ .convert true :: post)).1[pre.length]? = some (.ok .warned) := by
   rw [(best_match_config_local cfg _).2]
   simp [workStep, hc]
+
+/-- **best_lenient_fallback** (formerly known finding `C10-dict-best-strict-conversion`, repaired):
+with `fail_on_converter_warnings` off, when no candidate binds under the strict copy the
+candidates are ranked under the caller's own configuration; with the flag on the strict failure stands. -/
+theorem best_lenient_fallback (cfg : ParserConfig) (keys : List Str) (cands : List CandC)
+    {err : Err} (hs : bindBest cfg keys (cands.map (·.under (candidateConfig cfg))) = .error err) :
+    (workStep cfg (.best keys cands)).1 =
+      if cfg.failOnConverterWarnings then .error err
+      else (match bindBest cfg keys (cands.map (·.under cfg)) with
+        | .ok c => .ok (.chose c)
+        | .error e => .error e) := by
+  simp only [workStep, hs]
+  split <;> rfl
+
+/-- a strict success is final: the lenient attempts are not consulted -/
+theorem best_strict_first (cfg : ParserConfig) (keys : List Str) (cands : List CandC)
+    {c : ClassId} (hs : bindBest cfg keys (cands.map (·.under (candidateConfig cfg))) = .ok c) :
+    (workStep cfg (.best keys cands)).1 = .ok (.chose c) := by
+  simp only [workStep, hs]
+
+/- non-vacuity: `{"n": "many"}` for `Base(n: int)`: the strict attempt raises, the lenient one keeps the string -/
+example : (workStep { failOnConverterWarnings := false }
+      (.best [['n']] [⟨"Base".toList, [['n']], fun c => if c.failOnConverterWarnings then none else some 2⟩])).1
+    = .ok (.chose "Base".toList)
+  ∧ (workStep { failOnConverterWarnings := true }
+      (.best [['n']] [⟨"Base".toList, [['n']], fun c => if c.failOnConverterWarnings then none else some 2⟩])).1
+    = .error (.parser "Failed to bind object") := ⟨by rfl, by rfl⟩
 
 /- non-vacuity: a best-match item followed by a failing conversion, lenient configuration -/
 example : (workAll { failOnConverterWarnings := false }
